@@ -323,6 +323,96 @@ func suiteFlist(h *H) {
 		h.stat("flist.enc")
 		os.RemoveAll(dir)
 	}
+	// (1b) several source arguments in one list. The receiver's "previous entry" (for the same-as-previous
+	// flags) runs across the boundary between two sources, so whatever the sender compresses must do so
+	// too. Boundary entries get zero-valued fields (mtime 0, uid/gid 0) next to non-zero neighbours.
+	for i := 0; i < h.n(16, 300); i++ {
+		dir := filepath.Join(base, fmt.Sprintf("m%d", i))
+		os.Mkdir(dir, 0o755)
+		o := refOpts{uid: isRoot && h.rng.Intn(3) > 0, gid: isRoot && h.rng.Intn(3) > 0, links: true}
+		var paths []string
+		var want []refEntry
+		nsrc := 2 + h.rng.Intn(2)
+		for sIdx := 0; sIdx < nsrc; sIdx++ {
+			name := fmt.Sprintf("s%d", sIdx)
+			root := filepath.Join(dir, name)
+			os.Mkdir(root, os.FileMode(h.pick(0o755, 0o700)))
+			var made []string
+			for j, k := 0, 1+h.rng.Intn(3); j < k; j++ {
+				f := filepath.Join(root, fmt.Sprintf("f%d", j))
+				os.WriteFile(f, h.bytes(h.pick(0, 5, 700)), os.FileMode(h.pick(0o644, 0o600, 0o755)))
+				made = append(made, f)
+			}
+			made = append(made, root)
+			for _, f := range made {
+				if isRoot {
+					os.Lchown(f, h.pick(0, 0, 1000, 65534), h.pick(0, 0, 1000, 65534))
+				}
+				t := time.Unix(int64(h.pick(0, 0, 1, 1230000000, 1500000000)), 0)
+				os.Chtimes(f, t, t)
+			}
+			if h.rng.Intn(2) == 0 {
+				paths = append(paths, name+"/")
+				want = append(want, refWalk(root, o)...)
+			} else {
+				paths = append(paths, name)
+				for _, e := range refWalk(root, o) {
+					if string(e.name) == "." {
+						e.name = []byte(name)
+					} else {
+						e.name = append([]byte(name+"/"), e.name...)
+					}
+					want = append(want, e)
+				}
+			}
+		}
+		var out bytes.Buffer
+		st := &sender.Transfer{Logger: log.New(io.Discard), Opts: senderOptsFor(o), Env: &rsyncos.Env{Stdout: io.Discard, Stderr: io.Discard},
+			Progress: progress.NewPrinter(io.Discard, time.Now), Conn: &rsyncwire.Conn{Reader: strings.NewReader(""), Writer: &out}}
+		outcome := "ok"
+		func() {
+			defer func() {
+				if r := recover(); r != nil {
+					outcome = fmt.Sprintf("panic:%v", r)
+				}
+			}()
+			if _, err := st.SendFileList(dir, paths, &sender.VerifFilterRuleList{}); err != nil {
+				outcome = "err:" + err.Error()
+			}
+		}()
+		raw := out.Bytes()
+		es, ioerr, rest, derr := refDecodeList(raw, o)
+		v := ""
+		switch {
+		case outcome != "ok":
+			v = "FAIL SendFileList failed on plain trees: " + outcome
+		case derr != nil:
+			v = "FAIL the reference protocol-27 decoder cannot read gokrazy's file list for several sources: " + derr.Error()
+		case len(rest) != 0 || ioerr != 0:
+			v = fmt.Sprintf("FAIL trailing bytes (%d) or io error flag (%d) after the file list", len(rest), ioerr)
+		case sortedLines(es, o) != sortedLines(want, o):
+			v = "FAIL an independent protocol-27 decoder reads the list of several sources to something other than the source trees: " +
+				firstDiff(strings.ReplaceAll(sortedLines(es, o), ";", "\n"), strings.ReplaceAll(sortedLines(want, o), ";", "\n"))
+		}
+		if v == "" {
+			// and gokrazy's own receiver must read the same entries
+			impl, got := implDecode(o, raw)
+			if !strings.HasPrefix(impl, "ok ") {
+				v = "FAIL gokrazy's receiver does not accept gokrazy's list for several sources: " + impl
+			} else if sortedLines(got, o) != sortedLines(want, o) {
+				v = "FAIL gokrazy's receiver reads gokrazy's list for several sources to something other than the source trees: " +
+					firstDiff(strings.ReplaceAll(sortedLines(got, o), ";", "\n"), strings.ReplaceAll(sortedLines(want, o), ";", "\n"))
+			}
+		}
+		n2 := entrySectionLen(raw, o)
+		entrySection := raw
+		if n2 > 0 {
+			entrySection = raw[:n2]
+		}
+		h.emit(fmt.Sprintf("flist.enc %s %s", o, showEntries(want, o)), "ok "+hx(entrySection), v, true)
+		h.stat("flist.enc.multi")
+		os.RemoveAll(dir)
+	}
 	// (2) the real receiver on reference-encoded lists: every legal compression, sorted and shuffled wire order
 	for i := 0; i < h.n(300, 6000); i++ {
 		o := refOpts{uid: h.rng.Intn(2) == 0, gid: h.rng.Intn(2) == 0, links: h.rng.Intn(2) == 0, devices: h.rng.Intn(2) == 0, specials: h.rng.Intn(2) == 0, checksum: h.rng.Intn(4) == 0}
@@ -597,6 +687,12 @@ func tridgeFlist(h *H) {
 					}
 					if !oc.o.gid {
 						c[k].gid = 0
+					}
+					// tridge (protocol < 31) sends no device number for fifos and sockets: it flags them
+					// "same rdev as the previous entry", so whatever device number came before is what
+					// any decoder reads; the number is meaningless for these types and is left out
+					if c[k].isSpecial() {
+						c[k].rdev = 0
 					}
 				}
 				return sortedLines(c, oc.o)
